@@ -442,6 +442,7 @@ impl Terminal for UnixTerminal {
             };
 
             // process pending output
+            let mut sent_some = false;
             if tty.is_writable() {
                 let tee = self.tee.as_mut();
                 // bytes accepted by the tty are consumed even if copying them to the tee fails,
@@ -455,6 +456,7 @@ impl Terminal for UnixTerminal {
                     Ok::<_, Error>(size)
                 })?;
                 self.stats.send += send;
+                sent_some = send > 0;
                 tee_result?;
             }
 
@@ -522,9 +524,10 @@ impl Terminal for UnixTerminal {
             // indicate that first loop was executed
             first_loop = false;
 
-            // an event is ready and the tty takes no more output right now, deliver the
-            // event instead of waiting for the other side to drain the output
-            if !self.events_queue.is_empty() && !tty.is_writable() {
+            // an event is ready and the tty took no output in this round (not writable, or
+            // writable but the write was refused), deliver the event instead of waiting for
+            // the other side to drain the output
+            if !self.events_queue.is_empty() && !sent_some {
                 break;
             }
         }
